@@ -253,6 +253,9 @@ func opFlow(tr *fx.Trace, r *fx.Rng) {
 	badS := sc(new(big.Int).Mod(new(big.Int).Add(new(big.Int).SetBytes(v.sig.S()), big.NewInt(1)), orderN))
 	try("scalar+1", groupNonce, groupKey, msg, v.lam, mk(v.sig.R(), badS), v.Y, v.pubNonce)
 	try("otherR", groupNonce, groupKey, msg, v.lam, mk(other.Point(), v.sig.S()), v.Y, v.pubNonce)
+	// the response for the NEGATED nonce under the assigned nonce point: z' = z - 2k, so z'·G - c·λ·Y = -R (same x, other y)
+	negS := sc(new(big.Int).Mod(new(big.Int).Sub(new(big.Int).SetBytes(v.sig.S()), new(big.Int).Lsh(new(big.Int).SetBytes(v.privNonce), 1)), orderN))
+	try("negatedNonceResponse", groupNonce, groupKey, msg, v.lam, mk(v.sig.R(), negS), v.Y, v.pubNonce)
 	// a self-consistent signature made with a fresh nonce instead of the assigned one
 	fresh, err := tss.SignSigning(groupNonce, groupKey, msg, v.lam, other, v.x)
 	fx.Must(err)
